@@ -267,7 +267,7 @@ func byteCorpus(x *mon.Ctx) []bcase {
 		rq, _ := ref.ParseQuote(valid[0])
 		for _, typ := range []uint16{0, 1, 2, 3, 4, 5, 6, 7, 8, 0xff, 0xffff} {
 			for _, actual := range []int{0, 1, 16, 0x23, 0x24, 0x25, 0x113, 0x114, 0x193, 0x194, 0x195, 3000} {
-				for _, declared := range []int{-1, 0, 1, 0x23, 0x24, 0x25, 0x113, 0x114, 0x115, 0x193, 0x194, 0x195, 0x1000, 0x7fffffff, 0xffffffff} {
+				for _, declared := range []int64{-1, 0, 1, 0x23, 0x24, 0x25, 0x113, 0x114, 0x115, 0x193, 0x194, 0x195, 0x1000, 0x7fffffff, 0xffffffff} {
 					p := &world.QuoteParts{Header: rq.Header, Body: rq.Body, Sig: rq.Sig, AttPub: rq.AttKey, QeReport: rq.QeReport, QeSig: rq.QeSig, AuthData: rq.AuthData, Extra: rq.Extra}
 					p.Chain = make([]byte, actual)
 					posFill(p.Chain, actual)
